@@ -77,7 +77,8 @@ func vC29_headersOf(ctx context.Context) (map[string]string, *remoteclient.VC29C
 func vC29_batch() {
 	p := &remoteclient.VC29Prop{}
 	vC29_prop = p
-	n0, n1 := vCase("headers0"), vCase("headers1")
+	shape := vCase("headers") // number of headers of caller 0 * 3 + number of headers of caller 1
+	n0, n1 := shape/3, shape%3
 	remoteclient.VC29_headers(p, 0, n0, true)
 	remoteclient.VC29_headers(p, 1, n1, true)
 	remoteclient.VC29_reset()
